@@ -244,6 +244,12 @@ func run(c *eng.Ctx) {
 			nt := runCreateCloseSteered(c, idx)
 			c.R.End(idx, eng.Hash("c14-steered"), nt)
 		}
+		if idx := len(list) + 7; c.Mine(idx) {
+			settle(procBase)
+			c.R.Begin(idx)
+			nt := runWorkerCycles(c, idx)
+			c.R.End(idx, eng.Hash("c14-worker"), nt)
+		}
 	}()
 	for idx, sp := range list {
 		if !c.Mine(idx) {
